@@ -1,6 +1,6 @@
 (* C12 — macro expansion and inclusion.  Property theorems only. *)
 From Coq Require Import List NArith Bool String Arith.
-From RV Require Import Macro MacroProofs MacroSubst MacroLines MacroPaste MacroChain MacroSelf MacroNested MacroMutual.
+From RV Require Import Macro MacroProofs MacroSubst MacroLines MacroPaste MacroChain MacroSelf MacroNested MacroMutual MacroFnNested MacroMany MacroMany2.
 Import ListNotations.
 Local Open Scope string_scope.
 
@@ -275,6 +275,60 @@ Example C12_mutual_example :
   apply_macros (fun _ _ => None) ex_defs6 [MId "x"; MId "A"; MId "y"] =
   XOk [MId "x"; MLit "1"; MWs; MLit "3"; MWs; MId "A"; MWs; MLit "4"; MWs; MLit "2"; MId "y"].
 Proof. vm_compute. reflexivity. Qed.
+(* ---- a replacement list that invokes a function-like macro: the rescan performs the invocation ---- *)
+Theorem C12_replacement_invokes_function :
+  forall (paste : mtok -> mtok -> option mtok) (defs : list macro) (il : nat) (l : macro) (fi : nat) (f : macro)
+         (pre post preL : list mtok) (args : list (list mtok)) (postL : list mtok),
+    nth_error defs il = Some l -> m_fn l = false ->
+    nth_error defs fi = Some f -> m_fn f = true ->
+    m_body l = preL ++ MId (m_name f) :: MLP :: commas args ++ MRP :: postL ->
+    String.eqb (m_name l) (m_name f) = false ->
+    (forall j m', j < il -> nth_error defs j = Some m' -> String.eqb (m_name l) (m_name m') = false) ->
+    (forall j m', j < fi -> nth_error defs j = Some m' -> String.eqb (m_name f) (m_name m') = false) ->
+    args <> [] -> List.length args = m_params f -> Forall (simple defs) args ->
+    forallb (bodyb defs) (m_body f) = true ->
+    plain defs pre -> plain defs post -> plain defs preL -> plain defs postL ->
+    apply_macros paste defs (pre ++ MId (m_name l) :: post) =
+    XOk (pre ++ (preL ++ subst (m_body f) (map trim args) ++ postL) ++ post).
+Proof. exact replacement_invokes_function. Qed.
+
+(* #define sq(v) ((v)*(v))      #define L 1 + sq(3) *)
+Definition ex_defs7 : list macro :=
+  [def [MWs; MId "sq"; MLP; MId "v"; MRP; MWs; MLP; MLP; MId "v"; MRP; MSym "*"; MLP; MId "v"; MRP; MRP];
+   def [MWs; MId "L"; MWs; MLit "1"; MWs; MSym "+"; MWs; MId "sq"; MLP; MLit "3"; MRP]].
+Example C12_replacement_function_example :
+  apply_macros (fun _ _ => None) ex_defs7 [MId "x"; MSym "="; MId "L"; MSym ";"] =
+  XOk [MId "x"; MSym "="; MLit "1"; MWs; MSym "+"; MWs; MLP; MLP; MLit "3"; MRP; MSym "*"; MLP; MLit "3"; MRP; MRP; MSym ";"].
+Proof. vm_compute. reflexivity. Qed.
+(* ---- any number of macro uses in one token list, object-like and function-like mixed (replacement lists and
+        arguments that name no macro; arguments may hold parentheses): each use is replaced by its replacement list with
+        the arguments substituted, in order, and the text between the uses stays as it is ---- *)
+Theorem C12_every_use_is_replaced :
+  forall (paste : mtok -> mtok -> option mtok) (defs : list macro) (us : list muse) (post : list mtok),
+    Forall (muse_ok defs (map (fun _ => false) defs)) us -> plain defs post ->
+    apply_macros paste defs (min us ++ post) = XOk (mout us ++ post).
+Proof. exact every_use_is_replaced. Qed.
+
+(* #define W 640      #define sq(v) ((v)*(v))     W * sq(3) + W ; *)
+Definition ex_defs9 : list macro :=
+  [def [MWs; MId "W"; MWs; MLit "640"];
+   def [MWs; MId "sq"; MLP; MId "v"; MRP; MWs; MLP; MLP; MId "v"; MRP; MSym "*"; MLP; MId "v"; MRP; MRP]].
+Definition ex_muses : list muse :=
+  [UObj [] 0 (nth 0 ex_defs9 (def [])); UFn [MSym "*"] 1 (nth 1 ex_defs9 (def [])) [[MLit "3"]]; UObj [MSym "+"] 0 (nth 0 ex_defs9 (def []))]%nat.
+Example C12_every_use_example_ok : Forall (muse_ok ex_defs9 (map (fun _ => false) ex_defs9)) ex_muses.
+Proof.
+  assert (F0 : forall j m', j < 0 -> nth_error ex_defs9 j = Some m' -> String.eqb "W" (m_name m') = false)
+    by (intros j m' Hj; inversion Hj).
+  assert (F1 : forall j m', j < 1 -> nth_error ex_defs9 j = Some m' -> String.eqb "sq" (m_name m') = false).
+  { intros j m' Hj Hn. destruct j as [|j]; [cbn in Hn; inversion Hn; reflexivity | inversion Hj as [|? Hj']; inversion Hj']. }
+  unfold ex_muses. apply Forall_cons; [|apply Forall_cons; [|apply Forall_cons; [|apply Forall_nil]]];
+    unfold muse_ok; repeat split; try reflexivity; try assumption; try discriminate.
+  repeat constructor.
+Qed.
+Example C12_every_use_example :
+  apply_macros (fun _ _ => None) ex_defs9 (min ex_muses ++ [MSym ";"]) =
+  XOk [MLit "640"; MSym "*"; MLP; MLP; MLit "3"; MRP; MSym "*"; MLP; MLit "3"; MRP; MRP; MSym "+"; MLit "640"; MSym ";"].
+Proof. vm_compute. reflexivity. Qed.
 Print Assumptions C12_expansion_terminates.
 Print Assumptions C12_include_is_paste.
 Print Assumptions C12_pragma_once_marks.
@@ -291,3 +345,5 @@ Print Assumptions C12_object_chain_is_replaced.
 Print Assumptions C12_self_reference_stays.
 Print Assumptions C12_argument_is_expanded_first.
 Print Assumptions C12_mutual_reference.
+Print Assumptions C12_replacement_invokes_function.
+Print Assumptions C12_every_use_is_replaced.
